@@ -124,18 +124,28 @@ class C17(RecorderProp):
         fake_s3.install()
         from playback.tape_cassettes.s3.s3_tape_cassette import S3TapeCassette
         out = []
-        for ratio, d in zip(case['ratios'], case['draws']):
-            calc = None if ratio is None else (lambda category, size, recording, r=ratio: float(r[0]) / float(r[1]))
-            c = S3TapeCassette('b17', key_prefix='s', read_only=False, sampling_calculator=calc)
-            used = []
+        current = {}
 
-            class Scripted(object):
-                def random(self_inner):
-                    used.append(1)
-                    return float(d[0]) / float(d[1])
-            c._random = Scripted()
+        def calc(category, size, recording):
+            # the ratio is a function of THIS recording (its category, size and content)
+            r = recording.get_data('ratio')
+            return float(r[0]) / float(r[1])
+        shared = S3TapeCassette('b17', key_prefix='s', read_only=False, sampling_calculator=calc)
+        plain = S3TapeCassette('b17', key_prefix='t', read_only=False, sampling_calculator=None)
+        used = []
+
+        class Scripted(object):
+            def random(self_inner):
+                used.append(1)
+                return float(current['d'][0]) / float(current['d'][1])
+        shared._random = Scripted()
+        plain._random = Scripted()
+        for ratio, d in zip(case['ratios'], case['draws']):
+            current['d'] = d
+            c = plain if ratio is None else shared
             rec = c.create_new_recording('Op')
-            rec.set_data('k', 1)
+            rec.set_data('ratio', ratio)
+            del used[:]
             before = len(fake_s3.store('b17').log)
             c.save_recording(rec)
             out.append({'stored': len(fake_s3.store('b17').log) > before, 'draws': len(used)})
